@@ -212,6 +212,28 @@ def run(res, drv, tier, seed):
         if not close(impl_loss, lw, 1e-8, 1e-8):
             res.violation('correspondence', f'objective: PublicInference loss {impl_loss}, quadratic form in the weights {lw}', dict(rp, stream='C19.objective'))
             continue
+        # the caller's measurement list grows IN PLACE and the same engine is asked again (the usual adaptive loop): the second call starts from
+        # the first call's weights, and by emd_never_worse_than_start it can never fit the list it is given worse than that starting point
+        if ci % 4 == 1 and len(meas) >= 2:
+            eng2 = PublicInference(Dataset(df.copy(), d), metric=metric)
+            lst = list(meas[:-1])
+            try:
+                with np.errstate(all='ignore'):
+                    e1 = eng2.estimate(lst, total=T)
+                    w1 = np.asarray(e1.weights, dtype=float).copy()
+                    lst.append(meas[-1])
+                    e2 = eng2.estimate(lst, total=T)
+            except Exception as e:
+                res.violation('failing-input', f'PublicInference.estimate on a list grown in place raises {type(e).__name__}: {str(e)[:120]}', {'request': canon}, key='public:raises')
+                continue
+            w2 = np.asarray(e2.weights, dtype=float)
+            start = w1 * T / w1.sum()
+            res.count('measurement list grown in place between two calls on one engine')
+            if metric == 'L2' and L(w2) > L(start) * (1 + 1e-9) + 1e-9 * (1 + abs(L(start))):
+                res.violation('failing-input', f'PublicInference.estimate: after the caller\'s measurement list grew in place, the second call on the same engine fits the full list worse '
+                              f'(loss {L(w2):.8g}) than the weights it started from ({L(start):.8g}): the added measurement is not part of what was optimised',
+                              dict(rp, expected='loss(second call) <= loss(start)'), key='public:grown-list')
+                continue
         # a later call on the same object (different total, warm-started from these weights) must leave the dataset already handed back untouched
         if ci % 2 == 0:
             w_before = w.copy()
@@ -251,6 +273,53 @@ def run(res, drv, tier, seed):
                                   dict(rp, stream='C19.emd'))
                 else:
                     res.count('emd weights differ but losses agree (tie in acceptance)')
+    for _ in range(2 if tier == 'quick' else 12):
+        adaptive_loop(res, r)
+
+
+def adaptive_loop(res, r):
+    """the usual adaptive loop on one engine: the caller's list grows in place and estimate is called again.  Public records in which b
+    tracks a; the private a- and b-marginals pull opposite ways; the first measurement (on a) is vague, the appended one (on b) accurate:
+    the result of the second call must fit the list it was given no worse than the uniformly weighted public data"""
+    import pandas as pd
+    from mbi import Domain, Dataset, PublicInference
+    k = r.choice([3, 4])
+    d = Domain(['a', 'b'], [k, k])
+    rows = [[i % k, i % k] for i in range(20 * k)] + [[r.randrange(k), r.randrange(k)] for _ in range(2 * k)]
+    N = float(r.choice([2000, 20000]))
+    pa = np.array([k - i for i in range(k)], dtype=float); pa = pa / pa.sum() * N
+    pb = pa[::-1].copy()
+    lst = [(np.eye(k), pa + np.array([r.gauss(0, 0.05 * N) for _ in range(k)]), 0.05 * N, ('a',))]
+    eng = PublicInference(Dataset(pd.DataFrame(np.array(rows, dtype=int), columns=['a', 'b']), d))
+    canon = {'adaptive_loop': True, 'k': k, 'N': N, 'rows': rows}
+    res.case(canon, True)
+    res.count('directed: adaptive loop (list grown in place, accurate measurement appended)')
+    try:
+        with np.errstate(all='ignore'):
+            eng.estimate(lst, total=N)
+            lst.append((np.eye(k), pb + np.array([r.gauss(0, 1.0) for _ in range(k)]), 1.0, ('b',)))
+            est = eng.estimate(lst, total=N)
+    except Exception as e:
+        res.violation('failing-input', f'PublicInference.estimate in an adaptive loop raises {type(e).__name__}: {str(e)[:120]}', {'request': canon}, key='public:raises')
+        return
+    w = np.asarray(est.weights, dtype=float)
+
+    def loss(v):
+        out = 0.0
+        for Q, y, s, proj in lst:
+            j = 0 if proj == ('a',) else 1
+            marg = np.zeros(k)
+            for row, wi in zip(rows, v):
+                marg[row[j]] += wi
+            dd = (Q @ marg - y) / s
+            out += 0.5 * float(dd @ dd)
+        return out
+    lu, lw = loss(np.full(len(rows), N / len(rows))), loss(w)
+    if not np.all(np.isfinite(w)) or w.min() < 0 or not close(float(w.sum()), N, 1e-9, 1e-12):
+        res.violation('failing-input', f'adaptive loop: weights invalid (sum {float(w.sum())}, total {N})', {'request': canon}, key='public:adaptive-invalid')
+    elif lw > lu * (1 + 1e-9):
+        res.violation('failing-input', f'adaptive loop: after the accurate measurement was appended to the caller\'s list, the reweighted data fits the list worse (loss {lw:.8g}) '
+                      f'than the uniformly weighted public data ({lu:.8g})', {'request': canon, 'observed': {'loss': lw, 'uniform_loss': lu}}, key='public:adaptive-worse-than-uniform')
 
 
 def search(res, tier, seed, broken):
